@@ -59,7 +59,7 @@ claim("C15",
       MODEL + FMT + "2^32 rounds on one resource (sequence wrap) are outside.",
       "Kani/CBMC bounded model checking, one inductive step per operation from an arbitrary pre-state", "DESIGN.md section 3 C15")
 claim("C17",
-      "One step of each scanner (link parser, Unquote: every remaining ASCII input of 0..4 bytes; attribute parser: 0..3 bytes quick, 0..4 thorough): no panic, yielded slices inside the input and in order, remaining input a strictly shorter suffix - induction over the suffix gives termination, ordering and nothing-after-error; to_cow() = character iteration for every ASCII string of 0..3 bytes.",
+      "One step of each scanner (link parser and Unquote: every remaining ASCII input of 0..4 bytes; attribute parser: thorough tier only, 0..4 bytes): no panic, yielded slices inside the input and in order, remaining input a strictly shorter suffix - induction over the suffix gives termination, ordering and nothing-after-error; to_cow() = character iteration for every ASCII string of 0..3 bytes.",
       "Non-ASCII input and longer strings are outside; runs on the real core::str / core::fmt code.",
       "Kani/CBMC bounded model checking, one scanner step from an arbitrary remaining input", "DESIGN.md section 3 C17")
 claim("C18",
